@@ -1,5 +1,5 @@
 # replay of a bounded stand-in violation (C09/C10): re-run native/c09_engine.py
 import sys
-print("C10: creating the free parameter 'a' in a second program reset/aliased the bound parameter 'a' of the first program")
+print('bosonic gates: run([p1,p2]) gives [-0.0984, 1.0, -0.0673, 1.0, 0.5851, 1.0, 0.0587, 1.0] but the concatenated program gives [-0.0984, 1.0482, -0.0673, 1.2526, 0.5851, 0.915, 0.0587, 1.1551]')
 print('REPLAY-VIOLATION')
 sys.exit(1)
